@@ -705,3 +705,257 @@ def serve(conn) -> None:
 
 def b64(data: bytes) -> str:
     return base64.b64encode(data).decode("ascii")
+
+
+# ------------------------------------------------ C04: four construction paths
+
+
+def _dump(value, mode):
+    from pydantic import BaseModel  # noqa: PLC0415
+
+    if isinstance(value, BaseModel):
+        return value.model_dump(mode=mode)
+    if isinstance(value, (list, tuple)):
+        return [_dump(item, mode) for item in value]
+    if mode == "json":
+        if isinstance(value, uuidlib.UUID):
+            return str(value)
+        if isinstance(value, (dt.datetime, dt.date, dt.time)):
+            return value.isoformat()
+        if isinstance(value, enum.Enum):
+            return value.value
+        if isinstance(value, os.PathLike):
+            return os.fspath(value)
+    return value
+
+
+def _verdict(fn):
+    try:
+        obj = fn()
+    except Exception as exc:
+        return {"verdict": "reject", "exc": type(exc).__name__}, None
+    return {"verdict": "accept"}, obj
+
+
+@register("arrange")
+def h_arrange(spec, target, doc_path, handle):
+    """Construct the target object of a (possibly invalid) arrangement through
+    the constructor, dict validation, JSON validation and AOEF loading."""
+    import json  # noqa: PLC0415
+
+    from soundevent import data, io as sio  # noqa: PLC0415
+
+    cls_name = target["cls"]
+    # everything below the target is valid by construction of the mutation;
+    # build pools lazily so that an invalid sibling cannot interfere
+    lazy = dict(spec)
+    cut = {
+        "Clip": "clips",
+        "SoundEventPrediction": "se_predictions",
+        "SequencePrediction": "seq_predictions",
+        "PredictedTag": "se_predictions",
+        "Match": "matches",
+        "ClipEvaluation": "clip_evaluations",
+        "AnnotationProject": None,
+    }[cls_name]
+    order = [
+        "users", "tags", "recordings", "clips", "sound_events", "sequences",
+        "se_annotations", "seq_annotations", "clip_annotations",
+        "se_predictions", "seq_predictions", "clip_predictions", "matches",
+        "clip_evaluations", "tasks",
+    ]
+    if cut is not None:
+        for pool in order[order.index(cut):]:
+            lazy[pool] = []
+    try:
+        world = World(lazy)
+    except Exception as exc:
+        return {
+            "outcome": "raised",
+            "exc": type(exc).__name__,
+            "msg": f"substrate of the arrangement did not build: {exc}"[:300],
+        }
+    i = target.get("index", 0)
+    if cls_name == "Clip":
+        c = spec["clips"][i]
+        cls = data.Clip
+        kwargs = {
+            "uuid": uuidlib.UUID(c["uuid"]),
+            "recording": world.recordings[c["recording"]],
+            "start_time": c["start_time"],
+            "end_time": c["end_time"],
+            "features": _features(c.get("features", [])),
+        }
+    elif cls_name in ("SoundEventPrediction", "SequencePrediction"):
+        pool = (
+            "se_predictions"
+            if cls_name == "SoundEventPrediction"
+            else "seq_predictions"
+        )
+        p = spec[pool][i]
+        cls = getattr(data, cls_name)
+        kwargs = {
+            "uuid": uuidlib.UUID(p["uuid"]),
+            "tags": world._predicted_tags(p.get("tags", [])),
+        }
+        if cls_name == "SoundEventPrediction":
+            kwargs["sound_event"] = world.sound_events[p["sound_event"]]
+        else:
+            kwargs["sequence"] = world.sequences[p["sequence"]]
+        if "score" in p:
+            kwargs["score"] = p["score"]
+    elif cls_name == "PredictedTag":
+        tag_i, score = spec[target["pool"]][i]["tags"][target["pos"]]
+        cls = data.PredictedTag
+        kwargs = {"tag": world.tags[tag_i], "score": score}
+    elif cls_name == "Match":
+        cls = data.Match
+        kwargs = world.match_kwargs(spec["matches"][i])
+    elif cls_name == "ClipEvaluation":
+        cls = data.ClipEvaluation
+        kwargs = world.clip_evaluation_kwargs(spec["clip_evaluations"][i])
+    elif cls_name == "AnnotationProject":
+        cls = data.AnnotationProject
+        kwargs = world.root_kwargs("annotation_project")
+    else:
+        raise ValueError(cls_name)
+
+    out = {"outcome": "value", "paths": {}}
+    v_ctor, o_ctor = _verdict(lambda: cls(**kwargs))
+    out["paths"]["ctor"] = v_ctor
+    as_dict = {k: _dump(v, "python") for k, v in kwargs.items()}
+    v_dict, o_dict = _verdict(lambda: cls.model_validate(as_dict))
+    out["paths"]["dict"] = v_dict
+    text = json.dumps({k: _dump(v, "json") for k, v in kwargs.items()})
+    v_json, o_json = _verdict(lambda: cls.model_validate_json(text))
+    out["paths"]["json"] = v_json
+    v_aoef, o_aoef = _verdict(lambda: sio.load(doc_path))
+    out["paths"]["aoef"] = v_aoef
+    canons = {}
+    for name, obj in (("ctor", o_ctor), ("dict", o_dict), ("json", o_json)):
+        if obj is not None:
+            canons[name] = canon(obj)
+    out["canons"] = canons
+    if o_aoef is not None:
+        OBJECTS[handle] = o_aoef
+        out["aoef_canon"] = canon(o_aoef)
+    return out
+
+
+# ----------------------------------------------------------- C15: audio world
+
+
+def _array_payload(arr, with_data=True):
+    import numpy as np  # noqa: PLC0415
+
+    coords = {}
+    for dim in arr.dims:
+        if dim not in arr.coords:
+            continue
+        values = np.asarray(arr.coords[dim].values)
+        entry = {"n": int(values.shape[0])}
+        if values.dtype.kind in "fiu":
+            entry["values"] = b64(values.astype("<f8").tobytes())
+        step = arr.coords[dim].attrs.get("step")
+        entry["step"] = None if step is None else float(step)
+        coords[dim] = entry
+    out = {
+        "outcome": "value",
+        "dims": [str(d) for d in arr.dims],
+        "shape": [int(n) for n in arr.shape],
+        "coords": coords,
+    }
+    if with_data:
+        out["data"] = b64(np.ascontiguousarray(arr.values, dtype="<f8").tobytes())
+    return out
+
+
+def _recording_from(spec):
+    data = _data()
+    return data.Recording(
+        uuid=uuidlib.UUID(spec["uuid"]),
+        path=pathlib.Path(spec["path"]),
+        duration=spec["duration"],
+        channels=spec["channels"],
+        samplerate=spec["samplerate"],
+        time_expansion=spec.get("time_expansion", 1.0),
+    )
+
+
+@register("a_from_file")
+def a_from_file(path, time_expansion=1.0, compute_hash=True):
+    data = _data()
+    try:
+        rec = data.Recording.from_file(
+            path, time_expansion=time_expansion, compute_hash=compute_hash
+        )
+    except Exception as exc:
+        return _outcome_of(exc)
+    return {
+        "outcome": "value",
+        "duration": rec.duration,
+        "samplerate": rec.samplerate,
+        "channels": rec.channels,
+        "time_expansion": rec.time_expansion,
+        "hash": rec.hash,
+    }
+
+
+@register("a_load_clip")
+def a_load_clip(recording, start, end, handle, audio_dir=None, audio_as="str"):
+    from soundevent import audio  # noqa: PLC0415
+
+    data = _data()
+    rec = _recording_from(recording)
+    clip = data.Clip(recording=rec, start_time=start, end_time=end)
+    kwargs = {}
+    if audio_dir is not None:
+        kwargs["audio_dir"] = _as(audio_dir, audio_as)
+    try:
+        arr = audio.load_clip(clip, **kwargs)
+    except Exception as exc:
+        return _outcome_of(exc)
+    ARRAYS[handle] = arr
+    return _array_payload(arr)
+
+
+@register("a_load_recording")
+def a_load_recording(recording, handle, audio_dir=None, audio_as="str"):
+    from soundevent import audio  # noqa: PLC0415
+
+    rec = _recording_from(recording)
+    kwargs = {}
+    if audio_dir is not None:
+        kwargs["audio_dir"] = _as(audio_dir, audio_as)
+    try:
+        arr = audio.load_recording(rec, **kwargs)
+    except Exception as exc:
+        return _outcome_of(exc)
+    ARRAYS[handle] = arr
+    return _array_payload(arr)
+
+
+@register("a_resample")
+def a_resample(source, target_samplerate, handle):
+    from soundevent import audio  # noqa: PLC0415
+
+    try:
+        arr = audio.resample(ARRAYS[source], target_samplerate)
+    except Exception as exc:
+        return _outcome_of(exc)
+    ARRAYS[handle] = arr
+    return _array_payload(arr, with_data=False)
+
+
+@register("a_spectrogram")
+def a_spectrogram(source, window_size, hop_size, handle):
+    from soundevent import audio  # noqa: PLC0415
+
+    try:
+        arr = audio.compute_spectrogram(
+            ARRAYS[source], window_size=window_size, hop_size=hop_size
+        )
+    except Exception as exc:
+        return _outcome_of(exc)
+    ARRAYS[handle] = arr
+    return _array_payload(arr, with_data=False)
